@@ -218,7 +218,9 @@ func (c *Ctx) freshOfType(st *State, t types.Type, hint string) T {
 // jsonShape: the dynamic type of a decoded interface{} is one of the six JSON
 // shapes.
 func (c *Ctx) jsonShape(v T) T {
-	ids := []types.Type{types.Typ[types.Bool], types.Typ[types.Float64], types.Typ[types.String],
+	// (int: the repository's own number-preserving decoder keeps an integer
+	// literal that float64 cannot hold exactly as an int)
+	ids := []types.Type{types.Typ[types.Bool], types.Typ[types.Float64], types.Typ[types.Int], types.Typ[types.String],
 		types.NewSlice(types.NewInterfaceType(nil, nil)), types.NewMap(types.Typ[types.String], types.NewInterfaceType(nil, nil))}
 	alts := []T{IsNilIface(v)}
 	for _, t := range ids {
